@@ -383,8 +383,21 @@ def main():
         code = 1
     log()
     if result_text is not None:
-        with open(files[1], "wb") as f:
-            f.write(result_text.encode("utf-8"))
+        how = sh.get("replace", "0")
+        if how == "rename":                      # written next to the target, then moved over it
+            with open(files[1] + ".part", "wb") as f:
+                f.write(result_text.encode("utf-8"))
+            os.replace(files[1] + ".part", files[1])
+        elif how == "unlink":                    # the target is removed and created again
+            try:
+                os.unlink(files[1])
+            except OSError:
+                pass
+            with open(files[1], "wb") as f:
+                f.write(result_text.encode("utf-8"))
+        else:
+            with open(files[1], "wb") as f:
+                f.write(result_text.encode("utf-8"))
     if raw is None:
         raw = ("\n".join(lines) + "\n").encode("ascii") if lines else b""
     if sh.get("stderr", "0") != "0":
